@@ -1,7 +1,7 @@
 """C10 - tables and expressions are immutable values.
 
 A genuinely stateful exploration.  The world holds a pool of *live* objects: the source
-table, derived tables, and expression objects E0..E9 built once (an aggregate, a window
+table, derived tables, and expression objects E0..E10 built once (an aggregate, a window
 function, count(), an element-wise expression, a case expression, an ordering marker,
 an aggregate with explicit partition_by).  Events apply a verb with pooled expressions to
 a pooled table (the result joins the pool), change the grouping state, export, build the
@@ -55,6 +55,7 @@ EXPRS = [
     ["shift", src("x"), 1, None],  # E7 order-dependent window function without arrange= (takes the table's arrange order)
     ["row_number"],  # E8 the same without arguments
     ["case", [[["gt", src("x"), ["lit", 2]], ["lit", 1]]]],  # E9 an open case expression (no otherwise yet)
+    ["add", ["col", "C", "x"], ["lit", 1]],  # E10 refers to its column by NAME: it denotes whatever is called x where it is used
 ]
 
 
@@ -83,6 +84,8 @@ VERBS = [
     ["group_by", [src("k")], True],  # add=True: extends the grouping of the (shared) parent table
     ["mutate", [["o", ["case_ext", P(9), [[["lt", src("x"), ["lit", 2]], ["lit", -1]]], ["lit", 0]]]]],  # extends the open case expression
     ["mutate", [["o2", ["case_ext", P(9), [], ["lit", 7]]], ["o3", P(9)]]],  # closes it differently / uses it as it is
+    ["mutate", [["x", P(10)]]],  # re-binds the name x with the by-name expression ...
+    ["mutate", [["y2", P(10)]]],  # ... and uses the same object for another column
 ]
 # verbs whose bookkeeping (name maps, selections, limits, id maps of joins / unions) may be shared with
 # the table they are applied to; offered as the first event and, on the source table, as the second event of an interleaving
@@ -95,6 +98,7 @@ EXTRA = [
     ["join", {"src": "R"}, "left", [["eq", src("k"), ["col", "src", "R", "k"]]]],
     ["union", {"src": "U"}, False],
     ["collect"],
+    ["alias", "S"],  # a named alias (the name of the input table must not change)
 ]
 OBS = ["export", "build_query", "str"]
 
